@@ -12,6 +12,18 @@ CHECKS = {
     "C01": ("E2", "bounded-exhaustive enumeration of all programs up to K statements (small-scope model checking) against a reference interpreter",
             "Every program with up to K statement nodes (nesting <= 3) over a scoping-revealing alphabet, under every device answer history in {0,1,2}^4 where bounds are read from the device and three signal lists, is run through the real parser/binder/iterator and compared row by row with a reference interpreter. Exhaustive within those bounds; nothing is sampled.",
             "Trusts the reference interpreter (harness/src/refsem.rs) and the small-scope hypothesis; programs whose reference run exceeds 40 rows / 600 steps are out of scope.", "6/C01"),
+    "C05": ("E2", "bounded-exhaustive enumeration of all row shapes (per-column entry menus incl. X, C, Z, expressions, bits) x program forms x configurations against a reference expansion",
+            "Every row shape over the per-column menus, at loop depth 0/1/2 and as a repeat row, for several header/signal-list configurations (permuted header, omitted input, bidirectional split, two clocks), compared with the reference expansion: number, order and values of the executed rows, checked/unchecked kind, expected values, line, and the call kinds a write_input-overriding driver sees.",
+            "Trusts refsem.rs::do_row; loop bounds are >= 1 here.", "6/C05"),
+    "C06": ("E2", "bounded-exhaustive enumeration of all signal lists x all headers (ordered selections) against a reference binder; changed-rule checked against the driver's own log, also after an injected driver fault",
+            "Every ordered selection of up to 4 (thorough 5) signals from a 9-signal menu (inputs, outputs, bidirectional, names in prefix and _out relation, several widths) x every ordered selection of up to 4 valid header columns; a nine-row program whose consecutive rows differ in one column / one bit / everywhere; compared with the reference binder, and the one-directional changed rule is checked against what the driver was actually handed, including when the caller carries on after a driver fault.",
+            "Trusts refsem.rs::bind; lists with duplicate names are C11's.", "6/C06"),
+    "C07": ("E2", "exhaustive sweep of all widths 1..=64 x boundary value set x value paths against v mod 2^bits",
+            "All 64 widths x ~260 boundary values (every single-bit value, all-ones, negated, MIN/MAX, alternating) on the input path, expected path, a bidirectional signal, a virtual signal and on columns bound to two signals of different widths; values reach the program as hex literals and read back from a 64-bit device output. A mask-shaped reduction is pinned exactly by the single-bit values.",
+            "Only boundary values of the 2^64 domain are enumerated (DESIGN section 10).", "6/C07"),
+    "C08": ("E2", "bounded-exhaustive enumeration of all operator chains/trees up to 3 binary operators (+ unary prefixes) x valuations and of the operator table over boundary operands, against a reference evaluator",
+            "All 16^3 operator triples as flat chains (with every one of 9 unary prefixes on every operand position), all 5 tree shapes printed with minimal and full parentheses, under 12 valuations; all 16 binary and 3 unary operators over 19^2 boundary operand pairs read from the device; ite laziness incl. the draw log; all literal radix forms. Results are observed un-truncated in a 64-bit virtual column and a 64-bit output column.",
+            "Trusts refsem.rs::binop/unop/climb; valuations are a fixed boundary set (DESIGN section 10).", "6/C08"),
     "C18": ("E2", "bounded-exhaustive enumeration of all programs up to K statements; vars() compared with the reference environment after every row",
             "Same program space as C01 (plus X and C rows); after every yielded row vars() must equal the reference interpreter's flattened frame stack at the moment the row was evaluated.",
             "Trusts the reference interpreter; values after an error item or the end are not specified and only required not to panic.", "6/C18"),
